@@ -736,10 +736,19 @@ impl Node {
         self.handle_sync(msg, t, None);
     }
     /// Non-suspending handler body: the operations of the script that need no await.
-    fn handle_sync(&mut self, msg: Msg, t: i64, mut cx: Option<&mut Context<Self>>) {
+    pub async fn on_query_plain(&mut self, msg: Msg) -> Reply {
+        let (id, val) = (msg.id, msg.val);
+        let t = self.w.time_now();
+        self.handle_sync_q(msg, t, None, true);
+        Reply { from: self.idx, id, val: reply_val(self.idx, val), tok: Tracked::new(&self.w) }
+    }
+    fn handle_sync(&mut self, msg: Msg, t: i64, cx: Option<&mut Context<Self>>) {
+        self.handle_sync_q(msg, t, cx, false)
+    }
+    fn handle_sync_q(&mut self, msg: Msg, t: i64, mut cx: Option<&mut Context<Self>>, q: bool) {
         let w = self.w.clone();
         let node = self.idx;
-        w.log(Ev::HS { node, id: msg.id, tag: msg.tag, val: msg.val, t, q: false });
+        w.log(Ev::HS { node, id: msg.id, tag: msg.tag, val: msg.val, t, q });
         let spec = self.spec.clone();
         if let Some(ops) = spec.nodes[self.idx].scripts.get(&msg.tag) {
             for op in ops {
@@ -948,6 +957,23 @@ impl Node {
             }
         }
     }
+}
+
+/// Evaluates `$e` with `$f` bound to the replier method of the given flavour
+/// (replier methods are always async; the context-free flavours use the form without context).
+macro_rules! with_replier {
+    ($fl:expr, $f:ident => $e:expr) => {
+        match $fl {
+            Flavour::AsyncCx | Flavour::SyncCx => {
+                let $f = Node::on_query;
+                $e
+            }
+            Flavour::SyncPlain | Flavour::AsyncPlain => {
+                let $f = Node::on_query_plain;
+                $e
+            }
+        }
+    };
 }
 
 /// Model of the inner simulations run by `Op::Nested`.
@@ -1227,11 +1253,11 @@ fn connect_out(out: &mut Output<Msg>, conns: &[Conn], addrs: &[Address<Node>], b
     }
 }
 
-fn connect_req(req: &mut Requestor<Msg, Reply>, conns: &[Conn], addrs: &[Address<Node>]) {
+fn connect_req(req: &mut Requestor<Msg, Reply>, conns: &[Conn], addrs: &[Address<Node>], fl: &[Flavour]) {
     for c in conns {
         if let Conn::To { node, mode } = *c {
             match mode {
-                Mode::Plain => req.connect(Node::on_query, &addrs[node]),
+                Mode::Plain => with_replier!(fl[node], f => req.connect(f, &addrs[node])),
                 Mode::Map(_) => req.map_connect(
                     move |m: &Msg| {
                         let mut m = m.clone();
@@ -1324,11 +1350,11 @@ fn connect_src(src: &mut EventSource<Msg>, conns: &[Conn], addrs: &[Address<Node
     }
 }
 
-fn connect_qsrc(src: &mut QuerySource<Msg, Reply>, conns: &[Conn], addrs: &[Address<Node>]) {
+fn connect_qsrc(src: &mut QuerySource<Msg, Reply>, conns: &[Conn], addrs: &[Address<Node>], fl: &[Flavour]) {
     for c in conns {
         if let Conn::To { node, mode } = *c {
             match mode {
-                Mode::Plain => src.connect(Node::on_query, &addrs[node]),
+                Mode::Plain => with_replier!(fl[node], f => src.connect(f, &addrs[node])),
                 Mode::Map(_) => src.map_connect(
                     move |m: &Msg| {
                         let mut m = m.clone();
@@ -1422,7 +1448,7 @@ pub fn build(spec: &Arc<BenchSpec>, w: &Arc<W>) -> Built {
         let mut reqs = vec![];
         for conns in &s.reqs {
             let mut r = Requestor::new();
-            connect_req(&mut r, conns, &addrs);
+            connect_req(&mut r, conns, &addrs, &fl);
             reqs.push(r);
         }
         let mut unis = vec![];
@@ -1430,7 +1456,7 @@ pub fn build(spec: &Arc<BenchSpec>, w: &Arc<W>) -> Built {
             if let Conn::To { node, mode } = *c {
                 let a = &addrs[node];
                 unis.push(match mode {
-                    Mode::Plain => UniRequestor::new(Node::on_query, a),
+                    Mode::Plain => with_replier!(fl[node], f => UniRequestor::new(f, a)),
                     Mode::Map(_) => UniRequestor::with_map(
                         move |m: &Msg| {
                             let mut m = m.clone();
@@ -1488,7 +1514,7 @@ pub fn build(spec: &Arc<BenchSpec>, w: &Arc<W>) -> Built {
     let mut qsrcs = vec![];
     for conns in &spec.qsrcs {
         let mut s = QuerySource::new();
-        connect_qsrc(&mut s, conns, &addrs);
+        connect_qsrc(&mut s, conns, &addrs, &fl);
         qsrcs.push(s);
     }
 
@@ -1766,7 +1792,8 @@ fn exec_cmd_inner(b: &mut Built, cmd: &Cmd) -> Res {
         Cmd::ProcQuery { node, tag, val } => {
             let id = w.fresh_id();
             w.log(Ev::QryS { node: usize::MAX, port: *node, id, val: *val });
-            match simu.process_query(Node::on_query, Msg::new(&w, id, *tag, *val), &b.addrs[*node]) {
+            let flavour = b.flavours[*node];
+            match with_replier!(flavour, f => simu.process_query(f, Msg::new(&w, id, *tag, *val), &b.addrs[*node])) {
                 Ok(r) => {
                     Res::Replies(vec![(r.from, if r.id == id { r.val } else { i64::MIN + r.id as i64 })])
                 }
